@@ -988,18 +988,22 @@ func (d *bincDecDriver[T]) nextValueBytesBdReadR() {
 		d.r.skip(clen)
 	case bincVdArray:
 		clen = fnLen(d.vs)
+		d.d.depthIncr() // skipped containers count towards MaxDepth like decoded ones
 		for i := uint(0); i < clen; i++ {
 			d.readNextBd()
 			d.nextValueBytesBdReadR()
 		}
+		d.d.depthDecr()
 	case bincVdMap:
 		clen = fnLen(d.vs)
+		d.d.depthIncr()
 		for i := uint(0); i < clen; i++ {
 			d.readNextBd()
 			d.nextValueBytesBdReadR()
 			d.readNextBd()
 			d.nextValueBytesBdReadR()
 		}
+		d.d.depthDecr()
 	default:
 		halt.errorf("cannot infer value - %s %x-%x/%s", msgBadDesc, d.vd, d.vs, bincdesc(d.vd, d.vs))
 	}
